@@ -166,6 +166,19 @@ Theorem C12_oracle_includes_safety : forall pk ops o,
   check_C12 pk ops o = true -> check_C12_safety ops o = true.
 Proof. exact oracle_includes_safety. Qed.
 
+(* (8b) the handle-result clauses of the oracle -- Ok / Err only from send_after, Err only if
+   nothing of that timer was ever handled, unit results only from the other kinds, Ok only if the
+   period had elapsed before the target left the active states and before it exited, and the
+   handled numbers of every timer are 1, 2, 3, ... in this order -- accept every run of the model's
+   driver; they are part of the oracle applied to the implementation.  (Not included: "cancelled
+   only if an abort was issued", which needs the scenario's abort book-keeping.) *)
+Theorem C12_oracle_sound_results : forall pk gt ops, check_C12_results ops (observe pk gt ops) = true.
+Proof. exact oracle_sound_results. Qed.
+
+Theorem C12_oracle_includes_results : forall pk ops o,
+  check_C12 pk ops o = true -> check_C12_results ops o = true.
+Proof. exact oracle_includes_results. Qed.
+
 (* OPEN: C12_oracle_sound : forall pk gt ops, check_C12 pk ops (observe pk gt ops) = true.
    GAP: the clauses outside check_C12_safety are not proved of all model runs:
    (i) "not later than the first instant the runtime ran at/after the k-th wheel deadline" and
@@ -284,3 +297,5 @@ Print Assumptions C12_exit_kill_effects.
 Print Assumptions C12_exec_is_run.
 Print Assumptions C12_oracle_sound_safety.
 Print Assumptions C12_oracle_includes_safety.
+Print Assumptions C12_oracle_sound_results.
+Print Assumptions C12_oracle_includes_results.
